@@ -424,6 +424,29 @@ def answerErr (plugins : List Plugin) (q : Json) : List Json :=
   | .ok _ => []
   | .error e => [e]
 
+/-! ### What the property asks of input processing: item by item -/
+
+/-- an array result stands for its elements (`json_array_flatten_in_place`, one level) -/
+def expand1 : Json → List Json
+  | .arr xs => xs
+  | v => [v]
+
+/-- every plugin applied **item by item**: an item on which a plugin fails becomes its own error response and
+its siblings go on; an array result is replaced by its elements; a final item that is not an object becomes
+its own error response.  `.ok e`: an expanded query to run, `.error r`: an error response. -/
+def itemwise : List (Json → Except PErr Json) → List Json → List (Except Json Json)
+  | [], items =>
+    items.map (fun q => if q.isObject then .ok q else .error (errorResponse (.invariant noRequest)))
+  | op :: ops, items =>
+    items.flatMap (fun q =>
+      match op q with
+      | .error e => [.error (errorResponse (.plugin q e))]
+      | .ok q' => itemwise ops (expand1 q'))
+
+/-- "exactly one response for every query after expansion" -/
+def itemwiseAnswer (plugins : List Plugin) (respond : Json → Json) (q : Json) : List Json :=
+  (itemwise (plugins.map processT) [q]).map (fun r => match r with | .ok e => respond e | .error r => r)
+
 /-! ### Worker threads as interleavings of atomic steps -/
 
 /-- one worker of `par_iter()` over the bins: responses produced so far, queries still to run -/
